@@ -358,10 +358,13 @@ Proof.
     intros i j Hi Hj. apply Hc'. lia.
 Qed.
 
-Lemma fill_post (N : Z) :
-  0 <= N -> exists st, fill T src N = Done st /\ Post N st.
+(** fill on ANY existing storage: nothing about the previous contents is needed, because
+    the two vector resizes fix the sizes and every block / offset in the new range is
+    re-sized and overwritten. *)
+Lemma fill_from_post (st0 : storage T) (N : Z) :
+  0 <= N -> exists st, fill_from T src st0 N = Done st /\ Post N st.
 Proof.
-  intros HN. unfold fill. destruct (fill_is_empty N) eqn:E.
+  intros HN. unfold fill_from. destruct (fill_is_empty N) eqn:E.
   - apply (gen_is_empty N HN) in E. subst N. eexists. split; [reflexivity|].
     intros V HV. exfalso. lia.
   - assert (HN' : 0 < N).
@@ -372,12 +375,44 @@ Proof.
     + lia.
     + intros i Hi. apply gen_V_cond. lia.
     + unfold fuelN. lia.
-    + unfold InvV, empty_storage. cbn [nvals noffs].
+    + unfold InvV, resize_storage. cbn [nvals noffs].
       refine (conj eq_refl (conj eq_refl _)). intros V' HV'. exfalso. lia.
     + intros V t HV HIt. apply fill_body_ok; [lia|exact HIt].
     + intros s' (Hnv & Hno & Hfull) V HV. rewrite Hnv, Hno.
       split; [lia|]. split; [lia|]. apply Hfull. lia.
 Qed.
+
+Lemma fill_post (N : Z) :
+  0 <= N -> exists st, fill T src N = Done st /\ Post N st.
+Proof. intros HN. unfold fill. apply fill_from_post. exact HN. Qed.
+
+(** a freshly constructed container behaves like a filled one with window 0 *)
+Lemma Post_0 (st : storage T) : Post 0 st.
+Proof. intros V HV. exfalso. lia. Qed.
+
+Lemma last_cons (A : Type) (l : list A) (a d : A) : last (a :: l) d = last l a.
+Proof.
+  revert a d. induction l as [|b l IH]; intros a d; [reflexivity|].
+  change (last (a :: b :: l) d) with (last (b :: l) d). rewrite (IH b d), (IH b a). reflexivity.
+Qed.
+
+Lemma refill_fold_post (Ns : list Z) :
+  Forall (fun N => 0 <= N) Ns ->
+  forall (st0 : storage T) (N0 : Z), Post N0 st0 ->
+  exists st,
+    fold_left (fun acc N => bind acc (fun st => fill_from T src st N)) Ns (Done st0) = Done st /\
+    Post (last Ns N0) st.
+Proof.
+  induction 1 as [|N Ns HN HNs IH]; intros st0 N0 HP.
+  - exists st0. split; [reflexivity|exact HP].
+  - cbn [fold_left bind]. destruct (fill_from_post st0 N HN) as (st1 & E1 & HP1).
+    rewrite E1. rewrite last_cons. apply IH. exact HP1.
+Qed.
+
+Lemma refill_post (Ns : list Z) :
+  Forall (fun N => 0 <= N) Ns ->
+  exists st, refill T src Ns = Done st /\ Post (last Ns 0) st.
+Proof. intros H. unfold refill. apply refill_fold_post; [exact H|apply Post_0]. Qed.
 
 (** ** lookup *)
 
@@ -434,6 +469,35 @@ Proof.
   apply lookup_post. exact HP.
 Qed.
 
+Theorem fill_from_in_bounds_sec : forall (st0 : storage T) (N : Z),
+  0 <= N -> exists st, fill_from T src st0 N = Done st.
+Proof.
+  intros st0 N HN. destruct (fill_from_post st0 N HN) as (st & E & _). exists st. exact E.
+Qed.
+
+Theorem refill_window_sec :
+  forall (src' : Z * Z * Z -> T) (st0 : storage T) (N : Z) st (n1 n2 n3 : Z),
+  0 <= N -> fill_from T src st0 N = Done st ->
+  lookup T src' st N n1 n2 n3 =
+  Done (if in_window N n1 n2 n3 then src (n1, n2, n3) else src' (n1, n2, n3)).
+Proof.
+  intros src' st0 N st n1 n2 n3 HN E.
+  destruct (fill_from_post st0 N HN) as (st1 & E1 & HP).
+  assert (st1 = st) by congruence. subst st1.
+  apply lookup_post. exact HP.
+Qed.
+
+Theorem refill_transparent_sec : forall (Ns : list Z),
+  Forall (fun N => 0 <= N) Ns ->
+  exists st, refill T src Ns = Done st /\
+    forall n1 n2 n3, lookup T src st (last Ns 0) n1 n2 n3 = Done (src (n1, n2, n3)).
+Proof.
+  intros Ns H. destruct (refill_post Ns H) as (st & E & HP).
+  exists st. split; [exact E|]. intros n1 n2 n3.
+  rewrite (lookup_post src (last Ns 0) st n1 n2 n3 HP).
+  destruct (in_window (last Ns 0) n1 n2 n3); reflexivity.
+Qed.
+
 Theorem storage_transparent_sec : forall (N n1 n2 n3 : Z),
   0 <= N -> fill_then_lookup T src N n1 n2 n3 = Done (src (n1, n2, n3)).
 Proof.
@@ -458,6 +522,25 @@ Proof. exact storage_window_sec. Qed.
 Theorem storage_transparent : forall (T : Type) (src : Z * Z * Z -> T) (N n1 n2 n3 : Z),
   0 <= N -> fill_then_lookup T src N n1 n2 n3 = Done (src (n1, n2, n3)).
 Proof. exact storage_transparent_sec. Qed.
+
+(** refill of an existing container *)
+
+Theorem fill_from_in_bounds : forall (T : Type) (src : Z * Z * Z -> T) (st0 : storage T) (N : Z),
+  0 <= N -> exists st, fill_from T src st0 N = Done st.
+Proof. exact fill_from_in_bounds_sec. Qed.
+
+Theorem refill_window :
+  forall (T : Type) (src src' : Z * Z * Z -> T) (st0 : storage T) (N : Z) st (n1 n2 n3 : Z),
+  0 <= N -> fill_from T src st0 N = Done st ->
+  lookup T src' st N n1 n2 n3 =
+  Done (if in_window N n1 n2 n3 then src (n1, n2, n3) else src' (n1, n2, n3)).
+Proof. exact refill_window_sec. Qed.
+
+Theorem refill_transparent : forall (T : Type) (src : Z * Z * Z -> T) (Ns : list Z),
+  Forall (fun N => 0 <= N) Ns ->
+  exists st, refill T src Ns = Done st /\
+    forall n1 n2 n3, lookup T src st (last Ns 0) n1 n2 n3 = Done (src (n1, n2, n3)).
+Proof. exact refill_transparent_sec. Qed.
 
 (** * Vertex4::value = chi - chi^0 *)
 
@@ -519,6 +602,41 @@ Example lookup_distinguishes :
                 lookup _ (fun _ => (0, 0, 0)) st 2 2 0 0)
   | _ => (OOB, OOB)
   end = (Done (1, -2, 0), Done (0, 0, 0)).
+Proof. vm_compute. reflexivity. Qed.
+
+(** Refill.  The hypotheses of [refill_window] / [refill_transparent] are satisfiable with
+    non-trivial histories (shrinking, growing, through 0), and the model's vector resize
+    really keeps old blocks, so a refill starts from stale data rather than from an empty
+    storage: after N = 3, shrinking Values to 3 entries leaves block 0 (1x1, filled from
+    (-3,-3,-3)) and block 2 (3x3) in place, and drops block 3. *)
+Example refill_hyp_sat : Forall (fun N => 0 <= N) (3 :: 1 :: 0 :: 2 :: nil).
+Proof. repeat constructor; lia. Qed.
+Example resize_keeps_old_blocks :
+  match fill (Z * Z * Z) (fun t => t) 3 with
+  | Done st => let st' := resize_storage _ st 3 3 in
+               (dims _ st' 0, cells _ st' 0 0 0, dims _ st' 2, offs _ st' 2, dims _ st' 3,
+                dims _ (resize_storage _ st' 11 11) 3)
+  | _ => ((0, 0), None, (0, 0), 0, (0, 0), (0, 0))
+  end = ((1, 1), Some (-3, -3, -3), (3, 3), -3, (0, 0), (0, 0)).
+Proof. vm_compute. reflexivity. Qed.
+(** block 0 for N = 1 is filled from (-1,-1,-1), not the stale (-3,-3,-3) *)
+Example probe_seq_shrink : probe_seq (3 :: 1 :: nil) (-1) (-1) (-1) = Done (-1, -1, -1).
+Proof. vm_compute. reflexivity. Qed.
+Example probe_seq_shrink_outside : probe_seq (3 :: 1 :: nil) 1 0 0 = Done (1, 0, 0).
+Proof. vm_compute. reflexivity. Qed.
+Example probe_seq_grow : probe_seq (1 :: 3 :: nil) 2 (-3) 1 = Done (2, -3, 1).
+Proof. vm_compute. reflexivity. Qed.
+Example probe_seq_through_zero : probe_seq (2 :: 0 :: 2 :: nil) 1 (-2) 0 = Done (1, -2, 0).
+Proof. vm_compute. reflexivity. Qed.
+Example probe_seq_to_zero : probe_seq (2 :: 0 :: nil) 0 0 0 = Done (0, 0, 0).
+Proof. vm_compute. reflexivity. Qed.
+(** the refilled storage, not the fallback, serves in-window triples after a shrink *)
+Example refill_lookup_distinguishes :
+  match refill (Z * Z * Z) (fun t => t) (3 :: 1 :: nil) with
+  | Done st => (lookup _ (fun _ => (7, 7, 7)) st 1 (-1) 0 (-1),
+                lookup _ (fun _ => (7, 7, 7)) st 1 (-2) 0 (-1))
+  | _ => (OOB, OOB)
+  end = (Done (-1, 0, -1), Done (7, 7, 7)).
 Proof. vm_compute. reflexivity. Qed.
 
 (** the ring hypothesis of [vertex_is_chi_minus_chi0] is satisfiable (integers), and
